@@ -19,7 +19,7 @@ for pid in ids:
         "replay_cmd_template": "./check %s --replay {path}" % pid,
         "engine": "lean-proof",
         "level_claimed": {"category": "proof", "text": t["text"], "design_ref": t.get("design_ref", "DESIGN.md section 7, " + pid)},
-        "level_note": t["note"],
+        "level_note": t["note"] + " Every hand-modelled declaration is pinned to the source text it was read against: the translator regenerates a hash per declaration (Gen/Source.lean) and theorem %s_source_pinned (Pins/%s.lean) compares them with Model/Pins.lean; a changed declaration breaks it and the replay carries the diff." % (pid, pid),
         "technique": t.get("technique", "machine-checked proof in Lean 4 over a model tied to the source by a regenerating translator and a differential correspondence check"),
     })
 m = {
@@ -36,7 +36,7 @@ m = {
     ],
     "checks": checks,
     "not_applicable": [{"property_id": p, "reason": NOT_APPLICABLE.get(p, "check not built yet in this round; see DESIGN.md section 7 for the planned theorem and tie")} for p in ids if p not in PROPS],
-    "notes": "Every check: regenerate Gen from /repo, lake build Props.Cnn, axiom audit, differential run of the real code against the Lean model and the Lean spec. Known genuine defects are listed in known_findings.json. See DESIGN.md.",
+    "notes": "Every check: regenerate Gen from /repo, lake build Props.Cnn and Pins.Cnn, axiom audit, differential run of the real code against the Lean model and the Lean spec. Known genuine defects are listed in known_findings.json. See DESIGN.md.",
 }
 json.dump(m, open(os.path.join(ROOT, "MANIFEST.json"), "w"), indent=1)
 print("MANIFEST.json:", len(checks), "checks,", len(m["not_applicable"]), "not applicable")
